@@ -1,19 +1,8 @@
 """C01: common-prefix length preserved; injective; permutation."""
 from . import ipgen
 
+from .ipcommon import MODEL_DEPS, TRUSTED_BASE, ASSUMPTIONS, RULE_C01 as RULE  # noqa
 COQ_DEPS = ["lib/PPCore.v", "lib/PPHost.v", "lib/Memo.v", "lib/MemoProofs.v"]
-MODEL_DEPS = COQ_DEPS + ["lib/Md5.v", "lib/Str.v", "lib/Mask.v", "gen/G_ip_consts.v", "model/IpModel.v", "model/DriverIp.v", "model/Driver.v", "model/Extract.v"]
-TRUSTED_BASE = [
-    "Coq 8.16.1 kernel (coqc); vm_compute used only in the non-vacuity Example",
-    "axioms: none (Print Assumptions: Closed under the global context for every theorem)",
-    "hand-written model lib/Memo.v + model/IpModel.v of _BaseIpAnonymizer/IpAnonymizer/IpV6Anonymizer, tied to /repo by the correspondence run of this check (extracted with ExtrOcamlBasic, no Extract Constant)",
-    "generated unit gen/G_ip_consts.v (class constants read from the imported module)",
-    "lib/Md5.v (MD5 in Gallina, validated against hashlib through the same correspondence)",
-    "ipaddress option-string parsing is outside the model (cases pass already-parsed networks)",
-]
-ASSUMPTIONS = ["option strings are parsed by Python's ipaddress module (not modelled)", "bidict 0.24 semantics as modelled in lib/Memo.v (bput)"]
-RULE = ("small widths 1-6: every address of the space under random flip tables and every B; widths 32/128: addresses built to share exactly k leading bits "
-        "for random k, boundary addresses of every preserved prefix; salts incl. empty/non-ASCII; non-trivial = a pair of distinct addresses whose images were compared")
 
 
 def oracle(ctx, case, out, label):
@@ -52,6 +41,16 @@ def oracle(ctx, case, out, label):
     return pairs
 
 
+def project(case, out):
+    """pairwise common-prefix lengths of the images (and which images coincide)"""
+    w = ipgen.case_width(case)
+    ops, res = ipgen.ops_of(case), out.split(" ")
+    if len(ops) != len(res) or not all(r.isdigit() for r in res):
+        return "ERR"
+    ys = [int(r) for r in res]
+    return [ipgen.lcp(ys[i], ys[j], w) for i in range(len(ys)) for j in range(i + 1, len(ys))]
+
+
 def run(ctx):
     rng = ctx.rng
     q = ctx.quick()
@@ -61,7 +60,7 @@ def run(ctx):
         for B in (0, 8):
             cases.append(ipgen.ip4_case(rng, pfx=pfx, B=B))
     cases += [ipgen.ip6_case(rng) for _ in range(10 if q else 300)]
-    m, i = ctx.correspond(cases, label="anonymize")
+    m, i = ctx.correspond(cases, project=project, label="anonymize")
     pairs = 0
     for c, io in zip(cases, i):
         pairs += oracle(ctx, c, io, "impl")
